@@ -35,6 +35,16 @@ theorem decrypt_encrypt_id (sealF : Bytes → Bytes → Bytes) (opn : Bytes → 
     (iv p : Bytes) (hiv : iv.length = 12) : decrypt opn (encrypt sealF iv p) = .ok p :=
   decrypt_encrypt true sealF opn iv p hiv (hA iv p hiv)
 
+/-- … and the blob exposes exactly the IV it was sealed with, so two blobs carry the same nonce iff they
+    were sealed with the same IV (what the concurrent probe's `nonce-reuse` verdict evaluates) -/
+theorem encrypt_exposes_nonce (sealF : Bytes → Bytes → Bytes) (iv p : Bytes) : ivOf (encrypt sealF iv p) = some iv :=
+  ivOf_encrypt sealF iv p
+theorem distinct_ivs_distinct_blobs (sealF : Bytes → Bytes → Bytes) (iv iv' p p' : Bytes)
+    (h : encrypt sealF iv p = encrypt sealF iv' p') : iv = iv' := by
+  have h1 := ivOf_encrypt sealF iv p
+  rw [h, ivOf_encrypt] at h1
+  exact (Option.some.inj h1).symm
+
 /-! ### (a) data produced by Floodgate's own encoder is decoded to the same fields -/
 
 theorem gate_reads_floodgate (sealF : Bytes → Bytes → Bytes) (opn : Bytes → Bytes → Option Bytes) (hA : OpensSealed sealF opn)
